@@ -48,6 +48,9 @@ BUDGET = {'quick': (400, 16), 'thorough': (8000, 16)}
 
 VOCAB = ['alpha', 'bravo', 'charlie', 'delta', 'echo', 'foxtrot', 'golf',
          'hotel', 'india', 'juliet', 'kilo', 'lima']
+# tokens that mean something else to a regular expression (or to a parser)
+ODD = ['c++', 'a.c', '[dev]', 'x(y', 'q?', 'p|q', '^s', 'e$', 'b\\d', '.*',
+       'alpha+', '{2}']
 DAYS = [(2020, 1, 31), (2020, 2, 1), (2020, 2, 2), (2020, 3, 1),
         (2019, 12, 31)]
 TIMES = ['00:00:00', '23:59:59', '12:00:00', '00:00:01']
@@ -94,7 +97,8 @@ def _build(spec: list[int], vid: int) -> dict[str, Any]:
     hdrs = {
         'From': VOCAB[spec[5] % 12] + '@example.com',
         'To': VOCAB[spec[6] % 12] + '@example.com',
-        'Subject': VOCAB[spec[7] % 12] + ' ' + VOCAB[(spec[7] // 12) % 12],
+        'Subject': VOCAB[spec[7] % 12] + ' ' + VOCAB[(spec[7] // 12) % 12]
+        + (' ' + ODD[spec[7] % len(ODD)] if spec[7] % 3 == 0 else ''),
     }
     if spec[8] % 2:
         hdrs['Cc'] = VOCAB[spec[8] % 12] + '@example.com'
@@ -127,7 +131,7 @@ KEYS = ['ALL', 'ANSWERED', 'DELETED', 'DRAFT', 'FLAGGED', 'SEEN', 'RECENT',
         'OLD', 'KEYWORD', 'UNKEYWORD', 'BCC', 'CC', 'FROM', 'TO', 'SUBJECT',
         'HEADER', 'BODY', 'TEXT', 'LARGER', 'SMALLER', 'BEFORE', 'ON',
         'SINCE', 'SENTBEFORE', 'SENTON', 'SENTSINCE', 'UID', 'SEQ', 'SEQ',
-        'HEADER-EXISTS']
+        'HEADER-EXISTS', 'TWO-SIZES']
 
 
 class Ctx:
@@ -136,6 +140,13 @@ class Ctx:
         self.n = len(view)
         self.maxuid = max((m['uid'] for m in view), default=0)
         self.labels: set[str] = set()
+
+
+def _q(word: str) -> str:
+    """an astring: the atom when it is one, else quoted"""
+    if re.fullmatch(r'[A-Za-z0-9@.+\-_$^|?\[\]]+', word):
+        return word
+    return '"' + word.replace('\\', '\\\\').replace('"', '\\"') + '"'
 
 
 def _leaf(a: int, b: int, c: int, ctx: Ctx) -> tuple[str, Any]:
@@ -153,6 +164,9 @@ def _leaf(a: int, b: int, c: int, ctx: Ctx) -> tuple[str, Any]:
         word = word + 'zz'
     elif variant == 4:
         word = word[-2:] + '@ex'      # spans the end of a local part
+    if c % 7 == 0:
+        word = ODD[b % len(ODD)]      # taken literally, not as a pattern
+        variant = 5
 
     def mark() -> None:
         if variant:
@@ -179,23 +193,37 @@ def _leaf(a: int, b: int, c: int, ctx: Ctx) -> tuple[str, Any]:
         mark()
         h = key.capitalize()
         spell = [word, f'"{word}"', word.upper()][c % 3]
+        if variant == 5:
+            spell = _q(word)
         return f'{key} {spell}', lambda p, m: word in m['hdrs'].get(
             h, '').lower()
     if key == 'HEADER':
         mark()
         h = ['X-Custom', 'Subject', 'x-custom', 'Cc', 'X-Missing'][c % 5]
         real = {'x-custom': 'X-Custom'}.get(h, h)
-        return f'HEADER {h} {word}', lambda p, m: real in m['hdrs'] and \
+        return f'HEADER {h} {_q(word)}', lambda p, m: real in m['hdrs'] and \
             word in m['hdrs'][real].lower()
+    if key == 'TWO-SIZES':
+        # two keys of one kind side by side (a conjunction), with numbers
+        # that Python hashes alike: 2**61 - 1 hashes to 0
+        big = [2305843009213693951, 2305843009213693952, 4611686018427387902
+               ][b % 3]
+        small = big % 2305843009213693951
+        # bare at the top level of the program, in parentheses elsewhere
+        lp, rp = ('', '') if getattr(ctx, 'top', False) else ('(', ')')
+        if c % 2:
+            return f'{lp}SMALLER {big} SMALLER {small}{rp}', \
+                lambda p, m: m['size'] < small
+        return f'{lp}LARGER {small} LARGER {big}{rp}', lambda p, m: False
     if key == 'HEADER-EXISTS':
         h = ['X-Custom', 'Bcc', 'Cc', 'X-Missing'][c % 4]
         return f'HEADER {h} ""', lambda p, m: h in m['hdrs']
     if key == 'BODY':
         mark()
-        return f'BODY {word}', lambda p, m: word in m['body'].lower()
+        return f'BODY {_q(word)}', lambda p, m: word in m['body'].lower()
     if key == 'TEXT':
         mark()
-        return f'TEXT {word}', lambda p, m: word in m['raw'].decode().lower()
+        return f'TEXT {_q(word)}', lambda p, m: word in m['raw'].decode().lower()
     if key in ('LARGER', 'SMALLER'):
         sizes = sorted({m['size'] for m in ctx.view}) or [100]
         n = sizes[b % len(sizes)] + (c % 3) - 1
@@ -244,6 +272,7 @@ def _compile(tree: Any, ctx: Ctx, depth: int = 0,
              under_not: bool = False) -> tuple[str, Any, int]:
     kind = tree[0]
     if kind == 'k':
+        ctx.top = depth == 0 and not under_not
         w, f = _leaf(tree[1], tree[2], tree[3], ctx)
         return w, f, depth
     if kind == 'not':
@@ -407,8 +436,8 @@ def run_case(case: dict[str, Any]) -> CaseOut:
         variants.append(('parenthesised', '(' + wire + ')'))
         first = case['query'][0]
         if first[0] == 'or':
-            w1, _, _ = _compile(first[1], ctx)
-            w2, _, _ = _compile(first[2], ctx)
+            w1, _, _ = _compile(first[1], ctx, 1)
+            w2, _, _ = _compile(first[2], ctx, 1)
             rest = ' '.join(w for w, _, _ in compiled[1:])
             variants.append(('or-commutes', f'OR {w2} {w1} {rest}'.strip()))
             if len(compiled) == 1:
